@@ -1533,6 +1533,12 @@ fn cover_hom(profile: &str, p: &Pools, rng: &mut Rng, out: &mut Vec<String>, pid
         "C12" => &[("add", F4A, "PV", 1, D13), ("sub", F4, "PP", 1, D13), ("sub", F4A, "PV", 1, D13), ("mul_s", F2A, "PS", 1, D13), ("to_vec", M, "P", 1, D13), ("from_vec", M, "V", 1, D13),
                    ("midpoint", M, "PP", 1, D13), ("dot", M, "PV", 2, D13), ("distance2", M, "PP", 2, D13), ("from_homogeneous", M, "V", 0, &[4])],
         "C14" => &[("lerp", M, "QQS", 1, D0), ("lerp", M, "VVS", 1, &[2, 3, 4]), ("nlerp", M, "QQS", 0, D0)],
+        "C03s" => &[("mul_s", &["vv@s", "rv@s", "as@s"], "VS", 1, D14), ("div_s", &["vv@s", "rv@s", "as@s"], "VS", -1, D14), ("mul_ew", &["m@s", "as@s"], "VS", 1, D14),
+                    ("div_ew", &["m@s", "as@s"], "VS", -1, D14)],
+        "C01s" => &[("mul_s", &["vv@s", "as@s"], "MS", 1, D24), ("div_s", &["vv@s", "as@s"], "MS", -1, D24)],
+        "C04s" => &[("mul_s", &["vv@s", "as@s"], "QS", 1, D0), ("div_s", &["vv@s", "as@s"], "QS", -1, D0)],
+        "C12s" => &[("mul_s", &["vv@s", "as@s"], "PS", 1, D13), ("div_s", &["vv@s", "as@s"], "PS", -1, D13)],
+        "C11s" => &[("normalize_to", &["m@s"], "VS", 1, &[2, 3, 4])],
         _ => &[],
     };
     let small_t = |rng: &mut Rng| *rng.pick(&[q(1, 4), q(1, 2), q(2, 3), q(1, 3)]);
@@ -1566,6 +1572,7 @@ fn cover_hom(profile: &str, p: &Pools, rng: &mut Rng, out: &mut Vec<String>, pid
 fn cover_proj(profile: &str, p: &Pools, rng: &mut Rng, out: &mut Vec<String>, pid: &mut u64) {
     cover_scale(profile, p, rng, out, pid);
     cover_hom(profile, p, rng, out, pid);
+    if matches!(profile, "C01" | "C03" | "C04" | "C11" | "C12") { cover_hom(&format!("{}s", profile), p, rng, out, pid); }
     match profile {
         "C15" => {
             for kind in ["quat", "basis3", "arc"] { for anti in [false, true] {
@@ -1620,6 +1627,9 @@ fn cover_proj(profile: &str, p: &Pools, rng: &mut Rng, out: &mut Vec<String>, pi
             }
         }
         "C10" => {
+            for fc in 0..4 { for hc in 0..3 { for (n, fa) in [(q(1, 2), q(10, 1)), (q(1, 1), q(1000, 1))] {
+                emit1("planar_far_proj", vec![Val::I(fc), Val::I(hc), vs(n), vs(fa)], out, pid);
+            } } }
             for ctor in ["perspective", "perspective_deg", "perspective_fov"] { for fc in 0..6 { for (n, fa) in [(q(1, 2), q(10, 1)), (q(1, 100), q(1000, 1))] {
                 emit1("fov_proj", vec![t(ctor), Val::I(fc), vs(n), vs(fa)], out, pid);
             } } }
@@ -1634,7 +1644,42 @@ fn cover_proj(profile: &str, p: &Pools, rng: &mut Rng, out: &mut Vec<String>, pi
                 } }
             }
         }
+        "C02" => {
+            for gc in 0..4 { for n in [2usize, 3, 4] { for _ in 0..3 {
+                let m = match n { 2 => Val::M2(loop { let m = Matrix2::from_cols(rv2(rng), rv2(rng)); if m.determinant().n != 0 { break m; } }),
+                                  3 => Val::M3(loop { let m = Matrix3::from_cols(rv3(rng), rv3(rng), rv3(rng)); if m.determinant().n != 0 { break m; } }),
+                                  _ => { let c = |rng: &mut Rng| Vector4::new(small(rng), small(rng), small(rng), small(rng));
+                                         Val::M4(loop { let m = Matrix4::from_cols(c(rng), c(rng), c(rng), c(rng)); if m.determinant().n != 0 { break m; } }) } };
+                emit1s("near_sing_proj", vec![m, Val::I(gc)], if gc <= 1 { F2 } else { &["Q", "f64"] }, out, pid);
+            } } }
+        }
+        "C06" => {
+            let (z, o) = (q(0, 1), q(1, 1));
+            let e = [Vector3::new(o, z, z), Vector3::new(z, o, z), Vector3::new(z, z, o)];
+            for ty in ROT3 { for route in ["direct", "invert", "compose"] { for tc in 0..4 { for dc in [1i64, 8, 9, 11] {
+                let i = rng.below(3);
+                emit1("tilt_rot_proj", vec![t(ty), t(route), Val::V3(e[i]), Val::V3(e[(i + 1) % 3]), Val::V3(uv3(p, rng)), Val::I(dc), Val::I(tc)], out, pid);
+            } } } }
+        }
+        "C18" => {
+            for pred in ["is_symmetric", "is_diagonal"] { for n in [2usize, 3, 4] { for code in 0..5 { for e in [0i64, 12, -12] {
+                // an exactly symmetric (or diagonal) matrix with distinct entries; one off-diagonal element is then moved
+                let sym = |c: usize, r: usize| -> Q { if pred == "is_diagonal" { if c == r { q((c + 2) as i128, 1) } else { q(0, 1) } } else { q(((c.min(r) * 4 + c.max(r)) + 1) as i128, 3) } };
+                let (cc, rr) = (rng.below(n), rng.below(n));
+                let (cc, rr) = if cc == rr { ((cc + 1) % n, rr) } else { (cc, rr) };
+                let m = match n { 2 => Val::M2(Matrix2::new(sym(0, 0), sym(0, 1), sym(1, 0), sym(1, 1))),
+                                  3 => Val::M3(Matrix3::new(sym(0, 0), sym(0, 1), sym(0, 2), sym(1, 0), sym(1, 1), sym(1, 2), sym(2, 0), sym(2, 1), sym(2, 2))),
+                                  _ => Val::M4(Matrix4::new(sym(0, 0), sym(0, 1), sym(0, 2), sym(0, 3), sym(1, 0), sym(1, 1), sym(1, 2), sym(1, 3),
+                                                            sym(2, 0), sym(2, 1), sym(2, 2), sym(2, 3), sym(3, 0), sym(3, 1), sym(3, 2), sym(3, 3))) };
+                emit1s("pred_near_proj", vec![t(pred), m, Val::I(cc as i64), Val::I(rr as i64), Val::I(code), Val::I(e)], F2, out, pid);
+            } } } }
+        }
         "C14" => {
+            for tc in 0..5 { for ty in 0..4 {
+                let x = match ty { 0 => Val::V3(rv3(rng) + Vector3::new(q(7, 1), q(7, 1), q(7, 1))), 1 => Val::V2(rv2(rng) + Vector2::new(q(9, 1), q(9, 1))),
+                                   2 => Val::Q(uq(p, rng)), _ => Val::M2(Matrix2::from_cols(rv2(rng), rv2(rng))) };
+                emit1("lerp_far_proj", vec![x, Val::I(tc)], out, pid);
+            } }
             for which in ["nlerp", "slerp"] { for dc in 0..5 { for opp in [false, true] { for _ in 0..2 {
                 emit1s("lerp_end_proj", vec![t(which), Val::Q(uq(p, rng)), Val::V3(uv3(p, rng)), Val::I(dc), Val::B(opp)], F2, out, pid);
             } } } }
@@ -1669,6 +1714,12 @@ fn cover_proj(profile: &str, p: &Pools, rng: &mut Rng, out: &mut Vec<String>, pi
                     }
                 }
             }
+            // two dimensions: Matrix2 / Basis2 look_at with dir and up over many orders of magnitude
+            for kind in ["Matrix2", "Basis2"] { for (ue, de) in [(0i64, 0i64), (-9, -9), (-9, 0), (0, -9), (-17, 0), (-12, -12), (9, 9), (-30, 3)] { for _ in 0..2 {
+                let iv2 = |rng: &mut Rng| Vector2::new(Q::int(rng.range(-6, 6) as i128), Q::int(rng.range(-6, 6) as i128));
+                let (d0, u0) = loop { let (d0, u0) = (iv2(rng), iv2(rng)); if d0.perp_dot(u0).n != 0 { break (d0, u0); } };
+                emit1("look2_mag_proj", vec![t(kind), Val::V2(d0), Val::V2(u0), Val::I(ue), Val::I(de)], out, pid);
+            } } }
             // ... and far beyond what a rational of the model can express: scaled natively by powers of ten
             let entries2: Vec<(&str, &str, &str)> = vec![
                 ("mat3_look_to", "lh", ""), ("mat3_look_to", "rh", ""), ("mat3_look_to", "dep", ""),
